@@ -151,9 +151,16 @@ CLAIMED["C03"] = dict(
     note=TRUST + "Not decided: what encoding/json, protojson, base64 and gzip accept or produce (the conversion of the text itself), the body codecs, equality of the delivered message with the one sent. These are library behaviour; a contract would axiomatise the libraries, not decide larking's code (DESIGN 5 C03).",
     ref="DESIGN.md section 5 C03")
 
+CLAIMED["C20"] = dict(
+    text=("Partial proof of the registration discipline of NewServer and its options (not of net/http's routing): for every configured mount pattern, with P the pattern without its final '/', "
+          "the mux is mounted on the subtree pattern P+'/' behind http.StripPrefix(P, mux) - the stripped prefix is exactly P (never the pattern with its slash), is non-empty, the handler behind it is the mux that was passed in, "
+          "and exactly one stripping handler is built per subtree mount; an empty P (pattern '' or '/') mounts the mux itself on '/'; the http.ServeMux that HTTPHandlerOption filled is the one the mounts are added to and that is served "
+          "(extra handlers stay reachable under their own patterns, which HTTPHandlerOption registers verbatim); a nil mux is refused; MuxHandleOption stores the caller's patterns and refuses to be given twice."),
+    note=TRUST + "Assumed (library behaviour, not decided): http.ServeMux dispatches a request under a subtree pattern P+'/' to that pattern's handler and prefers the longest pattern, http.StripPrefix(P, h) serves path P+rest as rest, strings.TrimSuffix (model listed), h2c/http2 wiring leaves the handler's behaviour unchanged. The equivalence 'same status, headers and body as the bare mux' is therefore reduced to these clauses plus those assumptions; the witness verifWitnessMountPrefix exercises it through the real net/http when a clause fails.",
+    ref="DESIGN.md sections 5 C20 and 10.3")
+
 NA = {
     "C13": "pool reuse, goroutine lifetimes and data races are statements over schedules; no permission/ownership logic for sync.Pool hand-offs, go/sync are dropped by the generator (DESIGN 5 C13)",
-    "C20": "behaviour of net/http.ServeMux longest-pattern matching, http.StripPrefix and h2c; larking contributes a six-line loop without arithmetic (DESIGN 5 C20)",
 }
 
 PENDING = "contracts for this property are not yet discharged by the framework (build order in DESIGN.md section 9); not claimed until its obligations are green"
